@@ -8,6 +8,11 @@ using namespace rkcommon;
 using namespace rkcommon::math;
 using namespace rkcommon::array3D;
 
+// emit the vtables and the out-of-line copies of the virtual members: with summary(pointers={'a[0]': (vtable, 16)}) the
+// virtual calls that ActualArray3D makes on *this resolve to them (dynamic type = ActualArray3D<T>)
+template struct rkcommon::array3D::ActualArray3D<float>;
+template struct rkcommon::array3D::ActualArray3D<double>;
+
 typedef multidim_index_iterator<2> it2;
 typedef multidim_index_iterator<3> it3;
 
